@@ -166,6 +166,8 @@ def judge(geo, c, ints, minimize, kw):
     elif res.status == Status.UNBOUNDED:
         if st != "UNBOUNDED":
             errs.append(("wrong_unbounded", f"UNBOUNDED but the relaxation is {('bounded with optimum ' + str(relax)) if relax is not None else st}"))
+    elif res.status == Status.MAX_ITER and ("max_iter" in kw or "max_nodes" in kw):
+        pass  # a declared limit was hit and the solver claims nothing
     else:
         errs.append(("status", f"status {res.status.name}"))
     return errs, label, nontrivial
@@ -192,6 +194,10 @@ def config_menu(n, ints):
     for sd in (0, 1, 2, 3) if full else (0, 1):
         cfgs.append(dict(lns_iterations=2, seed=sd))
         cfgs.append(dict(lns_iterations=2, seed=sd, solution_limit=5))
+    # iteration / node limits: whatever is returned under a tiny budget must still be feasible and honestly labelled
+    for lim in (dict(max_iter=1), dict(max_iter=2), dict(max_iter=3), dict(max_nodes=1), dict(max_nodes=2), dict(max_iter=2, max_nodes=2)):
+        cfgs.append(lim)
+        cfgs.append(dict(lim, heuristics=False))
     return cfgs
 
 
